@@ -46,13 +46,84 @@ CLOSER_TEXT = {0: ')', 1: ']'}
 # 4-6 (XPath 3.1 only): unary lookups `?name`, `?integer`, `?*` — primary expressions of the EBNF
 # (3.1 [76] UnaryLookup ::= "?" KeySpecifier); the Lean model sees them as operands, so the real parser's
 # handling of a unary lookup in every operand position is compared with the EBNF reference parser.
-def atom_kinds(ver: str) -> int:
-    return 7 if ver.startswith('31') else 4
+# 7-9: names that spell operator keywords, unprefixed / prefixed `x:` / wildcard `*:` (2.0+);
+# 10: static function calls with 0-2 arguments (nested); 11 (3.1): parenthesised arrow expressions with every
+# function-specifier form.  All are primaries of the EBNF: operands for the model and the reference parser.
+KEYWORDS = ['div', 'mod', 'and', 'or', 'union', 'intersect', 'except', 'to', 'eq', 'ne', 'lt', 'le', 'gt', 'ge', 'is',
+            'idiv', 'instance', 'treat', 'cast', 'castable', 'if', 'for', 'some', 'every', 'let', 'return', 'satisfies',
+            'map', 'array']
+FN = 'http://www.w3.org/2005/xpath-functions'
+# (first version, text, tree written by hand in the notation of Token.tree)
+CALLS = [
+    ('10', 'true()', '(true)'), ('10', 'count(n1)', '(count (n1))'), ('10', "concat('s1', n2)", "(concat ('s1') (n2))"),
+    ('10', 'string(count(n1))', '(string (count (n1)))'), ('10', 'not(n1 = 2)', '(not (= (n1) (2)))'),
+    ('20', "fn:string-length(upper-case('s1'))", "(: (fn) (string-length (upper-case ('s1'))))"),
+    ('20', "concat(x:div, string(x:mod), *:union)", "(concat (: (x) (div)) (string (: (x) (mod))) (: (*) (union)))"),
+    ('30', "Q{%s}concat('s1', string(2))" % FN, "(Q{ ('%s') (concat ('s1') (string (2))))" % FN),
+]
+ARROWS = [
+    ("('s1' => concat(upper-case('s2')))", "(=> ('s1') (concat) (upper-case ('s2')))"),
+    ("('s1' => fn:concat(upper-case('s2')))", "(=> ('s1') (: (fn) (concat)) (upper-case ('s2')))"),
+    ("('s1' => Q{%s}concat(upper-case('s2'), string(1)))" % FN,
+     "(=> ('s1') (Q{ ('%s') (concat)) (, (upper-case ('s2')) (string (1))))" % FN),
+    ("('s1' => (concat#2)(upper-case('s2')))", "(=> ('s1') (# (concat) (2)) (upper-case ('s2')))"),
+    ("('s1' => $v1(upper-case('s2')))", "(=> ('s1') ($ (v1)) (upper-case ('s2')))"),
+    ("('s1' => (function($a, $b) { concat($a, $b) })(string(count(n1))))",
+     "(=> ('s1') (function ($ (a)) ($ (b))) (string (count (n1))))"),
+    ("('s1' => fn:concat(concat('s2', string(3)), 4))", "(=> ('s1') (: (fn) (concat)) (, (concat ('s2') (string (3))) (4)))"),
+    ("((1, 2) => fn:count() => fn:string())", "(=> (=> (, (1) (2)) (: (fn) (count)) ()) (: (fn) (string)) ())"),
+    ("(n1 => fn:concat(?1, x:div))", "(=> (n1) (: (fn) (concat)) (, (? (1)) (: (x) (div))))"),
+    ("('s1' => fn:concat('s2' => upper-case()))", "(=> ('s1') (: (fn) (concat)) (=> ('s2') (upper-case) ()))"),
+    ("('s1' => fn:upper-case())", "(=> ('s1') (: (fn) (upper-case)) ())"),
+]
+
+
+def atom_kind_list(ver: str) -> list[int]:
+    b = base_of(ver)
+    kinds = [0, 1, 2, 3, 7, 8, 10]
+    if b >= '20':
+        kinds.append(9)
+    if b == '31':
+        kinds += [4, 5, 6, 11]
+    return sorted(kinds)
+
+
+def atom_ids(ver: str, k: int) -> list[int]:
+    """identities available for an operand kind in a version"""
+    if k in (7, 8, 9):
+        return list(range(len(KEYWORDS)))
+    if k == 10:
+        return [i for i, c in enumerate(CALLS) if c[0] <= base_of(ver)]
+    if k == 11:
+        return list(range(len(ARROWS)))
+    if k == 6:
+        return [0]
+    return list(range(1, 8))
 
 
 def atom_text(k: int, n: int) -> str:
+    if k == 7:
+        return KEYWORDS[n]
+    if k == 8:
+        return 'x:' + KEYWORDS[n]
+    if k == 9:
+        return '*:' + KEYWORDS[n]
+    if k == 10:
+        return CALLS[n][1]
+    if k == 11:
+        return ARROWS[n][0]
     return [f'n{n}', f'{n}', f'$v{n}', f"'s{n}'", f'?n{n}', f'?{n}', '?*'][k]
 
+
+TREE2ATOM = {}
+for _i, _k in enumerate(KEYWORDS):
+    TREE2ATOM[f'({_k})'] = f'7.{_i}'
+    TREE2ATOM[f'(: (x) ({_k}))'] = f'8.{_i}'
+    TREE2ATOM[f'(: (*) ({_k}))'] = f'9.{_i}'
+for _i, _c in enumerate(CALLS):
+    TREE2ATOM[_c[2]] = f'10.{_i}'
+for _i, _c in enumerate(ARROWS):
+    TREE2ATOM[_c[1]] = f'11.{_i}'
 
 # type texts by index; 0-3 are SingleTypes (usable after cast/castable as), 4-5 SequenceTypes only.
 # occurrence indicators * and + are left out: after a SequenceType a following `*`/`+` token is an
@@ -81,6 +152,7 @@ def parser(ver: str, **options):
     key = (ver, json.dumps(options, sort_keys=True))
     if key not in _parsers:
         kw = dict(options)
+        kw.setdefault('namespaces', {'x': 'urn:c04:x'})
         if ver.endswith('c'):
             kw['compatibility_mode'] = True
         _parsers[key] = parser_class(ver)(**kw)
@@ -96,6 +168,11 @@ def dump(tok, symidx=None) -> str:
     """canonical S-expression of a token tree in the abstract alphabet of the Lean model"""
     s = tok.symbol
     n = len(tok)
+    if s in ('(name)', ':', 'Q{') or str(tok.label).endswith('function') or \
+            (s == '(' and n == 1 and tok[0].symbol == '=>' and tok[0].span[0] >= tok.span[0]):
+        tr = TREE2ATOM.get(tok.tree)
+        if tr is not None and (s != '(' or tr.startswith('11.')):
+            return tr
     if s == '(name)':
         v = tok.value
         if isinstance(v, str) and v[:1] == 'n' and v[1:].isdigit():
@@ -363,8 +440,8 @@ def probe_guards(ver: str, rows: list[dict]) -> None:
     group = next((r for r in rows if r['nud']['kind'] == 'group'), None)
     # sample left operands by head code
     samples: dict[int, str] = {}
-    for k in range(atom_kinds(ver)):
-        samples[atom_code(k)] = atom_text(k, 1)
+    for k in atom_kind_list(ver):
+        samples[atom_code(k)] = atom_text(k, atom_ids(ver, k)[min(1, len(atom_ids(ver, k)) - 1)])
     if group is not None:
         samples[op_code(group['idx'])] = '( n1 )'
     for r in rows:
@@ -412,13 +489,17 @@ def probe_guards(ver: str, rows: list[dict]) -> None:
         led['deny'] = deny
         if k == 'infix':
             # next-token check: which first tokens of the right operand are accepted
-            firsts = {atom_code(kk): atom_text(kk, 9) for kk in range(atom_kinds(ver))}
+            firsts = {atom_code(kk): atom_text(kk, atom_ids(ver, kk)[-1]) for kk in atom_kind_list(ver)}
             if group is not None:
                 firsts[op_code(group['idx'])] = '( n9 )'
             for rr in rows:
                 if rr['nud']['kind'] == 'prefix':
                     firsts[op_code(rr['idx'])] = f'{rr["sym"]} n9'
             acc = [c for c, txt in sorted(firsts.items()) if ok(f'n1 {tail(txt)}')]
+            if any('(integer)' in e for e in (led.get('ast') or {}).get('expected_next', [])):
+                # lookup key: the parser also takes QNames and parenthesised operands of the new kinds as keys
+                # (a laxity outside the fragment, see out_of_fragment 'lookup-key-not-ncname'): not in the model
+                acc = [c for c in acc if c not in (atom_code(8), atom_code(9), atom_code(10), atom_code(11))]
             led['rhs'] = [] if len(acc) == len(firsts) else acc
             led['rhs_probed_over'] = sorted(firsts)
         # cross-check with the guard read from the source
@@ -762,11 +843,15 @@ class VInfo:
 
 
 def gen_atom(rng, V=None):
-    if V is not None and V.ver.startswith('31') and rng.random() < 0.14:
+    ver = V.ver if V is not None else '10'
+    r = rng.random()
+    if ver.startswith('31') and r < 0.12:
         k = rng.choice([4, 5, 5, 6])
-        return ('a', k, 0 if k == 6 else rng.randrange(1, 8))
-    k = rng.choices([0, 1, 2, 3], [60, 15, 17, 8])[0]
-    return ('a', k, rng.randrange(1, 8))
+    elif r < 0.30:
+        k = rng.choice([x for x in (7, 7, 8, 8, 9, 10, 10, 11) if x in atom_kind_list(ver)])
+    else:
+        k = rng.choices([0, 1, 2, 3], [60, 15, 17, 8])[0]
+    return ('a', k, rng.choice(atom_ids(ver, k)))
 
 
 def gen_tree(rng, V: VInfo, size: int):
@@ -833,6 +918,10 @@ def out_of_fragment(V: VInfo, toks: list) -> str | None:
             return 'type-followed-by-parenthesis'    # `xs:string (` is tokenised as a constructor call
         if b[0] == 'o' and V.sym[b[1]] == '(' and a[0] == 'a' and a[1] != 2:
             return 'static-call-or-literal-call'     # `n1(..)` is a static FunctionCall (XPST0017), `1(..)` XPTY0004
+        if a[0] == 'o' and V.sym[a[1]] == '?' and b[0] == 'a' and b[1] in (8, 9, 10, 11):
+            return 'lookup-key-not-ncname'           # 3.1 [54] KeySpecifier is an NCName / integer / parenthesised expr
+        if V.ver == '10' and a[0] == 'o' and V.sym[a[1]] in ('/', '//') and b[0] == 'a' and b[1] >= 10:
+            return 'xpath1-function-call-step'       # 1.0 [4]: a Step is not a function call
         if a[0] == 'a' and a[1] == 6 and b[0] == 'a' and b[1] in (0, 1):
             return 'wildcard-lookup-followed-by-name'   # `?* n1`: lexically `?*` then a name test, no operator between
         if V.ver == '10' and a[0] == 'o' and V.sym[a[1]] in ('/', '//') and b[0] == 'a' and b[1] == 2:
@@ -913,10 +1002,11 @@ def compare_tokens(run: Run, cases: list[tuple[str, list]], origin: str = 'gen')
                                       tags=a['trig']))
         elif ci != cm:
             run.disagree(Disagreement(case, ci, cm, cs, what='model', site='operator table'))
-        if a['chain'] != '1':
+        opaque = any(t[0] == 'a' and t[1] >= 7 for t in toks)      # operands whose text the Lean model does not render
+        if a['chain'] != '1' and not opaque:
             run.disagree(Disagreement(case, 'n/a', 'chain=0', what='source-text-not-separable',
                                       site='model of XPathToken.source / lexeme model'))
-        if tok is not None and ci == cm and a['src'] is not None:
+        if tok is not None and ci == cm and a['src'] is not None and not opaque:
             # tie of the textual source model: the Lean rendering of the tree is the real `source` string
             try:
                 real_src = tok.source
@@ -974,6 +1064,16 @@ def trig_f04g(src: str) -> bool:
     return False
 
 
+def trig_f04h(src: str) -> bool:
+    """trigger of finding F04h: an arrow whose function specifier is a prefixed or braced name"""
+    import re
+    return re.search(r'=>\s*(?:[^\d\W][\w.\-]*:[^\d\W][\w.\-]*|Q\{[^}]*\}[^\d\W][\w.\-]*)\s*\(', src) is not None
+
+
+def roundtrip_tags(src: str) -> list:
+    return (['F04g'] if trig_f04g(src) else []) + (['F04h'] if trig_f04h(src) else [])
+
+
 def roundtrip(run: Run, ver: str, src: str, tok, dumped: str) -> None:
     st = run.stats
     try:
@@ -987,14 +1087,14 @@ def roundtrip(run: Run, ver: str, src: str, tok, dumped: str) -> None:
     if again != dumped:
         run.disagree(Disagreement({'version': ver, 'source': src, 'unparsed': src2}, again, None, dumped,
                                   what='source-roundtrip', site='XPathToken.source',
-                                  tags=['F04g'] if trig_f04g(src) else []))
+                                  tags=roundtrip_tags(src)))
         return
     if tok2 is not None and st.hist.get('roundtrip:evaluated', 0) < run.scale(400, 4000):
         v1, v2 = evaluate(ver, tok), evaluate(ver, tok2)
         st.count('roundtrip:evaluated')
         if v1 != v2:
             run.disagree(Disagreement({'version': ver, 'source': src, 'unparsed': src2}, v2, None, v1,
-                                      what='source-roundtrip-value', site='XPathToken.source'))
+                                      what='source-roundtrip-value', site='XPathToken.source', tags=roundtrip_tags(src)))
 
 
 # --------------------------------------------------------- (iii) whitespace and comments
@@ -1067,6 +1167,10 @@ def trig_f04e(src: str) -> bool:
     line holds another ':)' directly followed by '(' or '::' — the greedy `\\(\\:.*\\:\\)` look-ahead of the
     function / axis token patterns then spans both comments and the code between them"""
     import re
+    if re.search(r'(?<!\$)\b(?:map|array)\s*\(:', src):
+        # second clause (3.1, repaired on branch fix-c04-2): the look-ahead of the `map` / `array` token patterns
+        # accepts the '(' of a comment, so a name `map` / `array` followed by a comment becomes a constructor token
+        return True
     for m in re.finditer(r'[^\d\W][\w.\-]*\s*(?=\(:)', src):
         e = comment_end(src, m.end())
         rest = src[e:]
@@ -1346,6 +1450,13 @@ SEED_CORPUS = [
     ('20c', ['-', '1', 'instance', 'T0']), ('30c', ['-', '1', 'cast', 'T0']), ('31c', ['-', 'n1', '|', 'n2']),
     ('20c', ['+', 'n1', 'intersect', 'n2']), ('31c', ['-', 'n1', 'treat', 'T4']), ('20c', ['-', 'n1', 'castable', 'T1']),
     ('20c', ['-', 'n1', 'union', 'n2', 'except', 'n3']),
+    # operands that spell operator keywords (prefixed, wildcard), static calls, arrows with every specifier form
+    ('10', [('a', 8, 0), 'div', ('a', 8, 1)]), ('20', [('a', 8, 4), '|', ('a', 8, 1)]), ('20', [('a', 9, 0)]),
+    ('31', [('a', 7, 0), 'div', ('a', 7, 1), 'mod', ('a', 9, 15)]), ('20', [('a', 7, 2), 'and', ('a', 7, 3), 'or', ('a', 8, 7)]),
+    ('31', [('a', 11, 1), '||', ('a', 11, 2)]), ('31', [('a', 11, 3), '=', ('a', 11, 5), ',', ('a', 11, 6)]),
+    ('31', ['-', ('a', 11, 7), '+', ('a', 10, 5)]), ('30', [('a', 10, 7), '!', ('a', 10, 3)]),
+    ('10', [('a', 10, 1), '+', ('a', 10, 3), '*', ('a', 10, 4)]), ('31', ['n1', '[', ('a', 11, 8), ']']),
+    ('31', ['(', ('a', 11, 9), ',', ('a', 11, 10), ')']), ('20', ['n1', '/', ('a', 8, 1), '/', ('a', 9, 0)]),
     # minimal failing inputs found by the mutation self-test (regression seeds)
     ('20', ['n1', 'to', 'n2', 'to', 'n3']), ('31', ['n1', '|', 'n2', '|', 'n3']), ('30', ['n1', 'intersect', 'n2', 'cast', 'T3']),
     ('20', ['-', 'n1', 'cast', 'T0']), ('30', ['n1', '||', 'n2', 'to', 'n3']), ('10', ['$1', '*', 'n5', '*', 'n6']),
@@ -1589,6 +1700,24 @@ EXPECTED = [
     ('31', 'a = b => string()', '(= (a) (=> (b) (string) ()))'), ('31', 'a || b => string()', '(|| (a) (=> (b) (string) ()))'),
     ('31', '- 1 => abs() cast as xs:integer', '(cast (=> (- (1)) (abs) ()) (: (xs) (integer)))'),
     ('31', 'a ! b => count()', '(=> (! (a) (b)) (count) ())'),
+    # arrow: every function-specifier form x argument forms (static calls, nested calls, arrows, lookups, keywords)
+] + [('31', a[0][1:-1], a[1]) for a in ARROWS] + [
+    ('31', "'a' => fn:concat(upper-case('b'))", "(=> ('a') (: (fn) (concat)) (upper-case ('b')))"),
+    ('31', "'a' => Q{%s}concat(upper-case('b'), 'c')" % FN, "(=> ('a') (Q{ ('%s') (concat)) (, (upper-case ('b')) ('c')))" % FN),
+    ('31', "'a' => (concat#2)(string(count(x)))", "(=> ('a') (# (concat) (2)) (string (count (x))))"),
+    ('31', "'a' => concat(string(1), string(2))", "(=> ('a') (concat) (, (string (1)) (string (2))))"),
+    ('31', "'a' => $f(string(1), x:div)", "(=> ('a') ($ (f)) (, (string (1)) (: (x) (div))))"),
+    ('31', "div => fn:string()", "(=> (div) (: (fn) (string)) ())"),
+    ('31', "x:mod => string() => fn:concat(upper-case('b'))", "(=> (=> (: (x) (mod)) (string) ()) (: (fn) (concat)) (upper-case ('b')))"),
+    # names that spell operator keywords, prefixed and as wildcard local parts, on an axis
+    ('10', 'x:div div x:mod', '(div (: (x) (div)) (: (x) (mod)))'), ('10', 'child::x:mod', '(child (: (x) (mod)))'),
+    ('20', 'x:union | x:mod', '(| (: (x) (union)) (: (x) (mod)))'), ('20', '*:div', '(: (*) (div))'),
+    ('20', 'x:to to x:eq eq *:is', '(eq (to (: (x) (to)) (: (x) (eq))) (: (*) (is)))'),
+    ('20', 'and and or or union union intersect', '(or (and (and) (or)) (union (union) (intersect)))'),
+    ('20', 'x:instance instance of element() and x:cast cast as xs:string',
+     '(and (instance (: (x) (instance)) (element)) (cast (: (x) (cast)) (: (xs) (string))))'),
+    ('30', 'let/for/some/every/if/return/satisfies', '(/ (/ (/ (/ (/ (/ (let) (for)) (some)) (every)) (if)) (return)) (satisfies))'),
+    ('20', 'count(x:div) + string-length(string(*:mod))', '(+ (count (: (x) (div))) (string-length (string (: (*) (mod)))))'),
     # placeholder, sequence types with occurrence / map / array tests, attribute axis and kind test, literals
     ('31', '$f(?, 1)', '(($ (f)) (, (?) (1)))'), ('31', 'a instance of element()?', '(instance (a) (element))'),
     ('31', '. instance of map(*)', '(instance (.) (map (*)))'),
@@ -1634,7 +1763,7 @@ def expected_pass(run: Run) -> None:
 OPTION_VARIANTS = [
     {'compatibility_mode': True}, {'strict': False}, {'xsd_version': '1.1'},
     {'default_namespace': 'urn:c04:default'}, {'function_namespace': 'urn:c04:functions'},
-    {'namespaces': {'p': 'urn:c04:p'}},
+    {'namespaces': {'p': 'urn:c04:p', 'x': 'urn:c04:x'}},
 ]
 
 
